@@ -198,8 +198,11 @@ def read_check_timing():
     st = expect(lambda s: isinstance(s, ast.Expr) and isinstance(s.value, ast.Call) and unparse(s.value.func) == 'div_check',
                 'div_check of the block duration')
     c = st.value
-    if unparse(c.args[0]) != 'duration':
-        fail('block duration div_check is not on `duration`')
+    # which value is tested against the block raster: the local `duration` (= calc_duration(block)) or the stored one
+    bd = lin_of(c.args[0], ())
+    if bd not in ([(True, 'TDur')], [(True, 'TStored')]):
+        fail('block duration div_check is on neither `duration` nor the stored duration: %s' % unparse(c.args[0]))
+    res['block_dur_term'] = bd[0][1]
     kws = {k.arg: k.value for k in c.keywords}
     if kw_str(kws, 'event') != 'block' or kw_str(kws, 'field') != 'duration':
         fail('block duration div_check reports a different event/field')
@@ -489,6 +492,8 @@ def sec_timing():
     out += 'Definition div_tol : Q := %s.\n' % coq_Q(ct['div_tol'])
     out += 'Definition div_cmp : cmp := %s.\n' % ct['div_cmp']
     out += 'Definition ct_block_raster : raster_id := %s.\n' % ct['block_raster']
+    out += 'Definition ct_block_dur_term : term := %s.\n' % ct['block_dur_term']
+    CONSTS['timing_raster_on_stored'] = ct['block_dur_term'] == 'TStored'
     out += 'Definition ct_mismatch : lintest := %s.\n' % ct['mismatch']
     kr, dflt = ct['kind_raster']
     out += 'Definition ct_kind_raster (k : ekind) : raster_id :=\n  match k with\n'
@@ -536,7 +541,16 @@ def _write_blocks():
     raise TranslateError('write_seq [BLOCKS] loop not found')
 
 
+def _set_block_events():
+    fn = func(parse('Sequence/block.py')[0], 'set_block')
+    for st in strip_doc(fn):
+        if isinstance(st, ast.For) and unparse(st.iter) == 'events':
+            return st
+    raise TranslateError('set_block event loop not found')
+
+
 FP_SOURCES = {
+    'set_block.events': _set_block_events,
     'check_timing': _fn('check_timing.py', 'check_timing'),
     'calc_duration': _fn('calc_duration.py', 'calc_duration'),
     'cumsum': _fn('utils/cumsum.py', 'cumsum'),
@@ -550,6 +564,6 @@ FP_SOURCES = {
 }
 FP_GROUPS = {
     'FP_timing_check': ['check_timing', 'calc_duration', 'Sequence.check_timing'],
-    'FP_timeline': ['calc_duration', 'cumsum', 'Sequence.duration', 'Sequence.adc_times', 'Sequence.rf_times',
+    'FP_timeline': ['set_block.events', 'calc_duration', 'cumsum', 'Sequence.duration', 'Sequence.adc_times', 'Sequence.rf_times',
                     'Sequence.waveforms', 'Sequence.write', 'write_seq.blocks'],
 }
